@@ -905,6 +905,12 @@ class Server:
 
         Server connection handler (main routine per user).
         """
+        server = getattr(self, "server", None)
+        if server is not None and not server.is_serving():
+            # accepted while close() was on its way: close() can not see
+            # this connection any more, so do not start serving it
+            writer.close()
+            return
         host, port, *_ = writer.transport.get_extra_info("peername", ("", ""))
         current_server_host, *_ = writer.transport.get_extra_info("sockname")
         logger.info("new connection from %s:%s", host, port)
